@@ -220,6 +220,9 @@ class Parser:
             if k != 'op' or op not in BINPREC or BINPREC[op] < minp:
                 return l
             self.nxt()
+            if self.peek()[1] == '...':
+                self.nxt()
+                return ('fold', op, l)
             r = self.binary(BINPREC[op] + 1)
             l = ('bin', op, l, r)
 
